@@ -61,7 +61,15 @@ func suiteCollection(r *Rng, n int, thorough bool, o *Out) {
 				}
 				vals := genFieldVals(r, rt)
 				var res jsonapi.Resource
-				if r.bool() {
+				if sc.Type != nil && r.chance(1, 5) {
+					// a soft resource that shares the collection's own *Type object
+					rt = cur.Copy()
+					vals = genFieldVals(r, rt)
+					sr := &jsonapi.SoftResource{}
+					sr.SetType(sc.Type)
+					res = sr
+					o.stat("add.soft-sharing-type-pointer")
+				} else if r.bool() {
 					res = newSoft(rt)
 					o.stat("add.soft")
 				} else {
